@@ -1935,6 +1935,14 @@ def real_gnss(line):
                 f.data = bytearray(pl)
             f.unpack()
         else:
+            if tail.startswith('T'):
+                # earlier in this process a message announcing as many blocks arrived cut short (checksum fine, payload too short): decoding it
+                # failed - and must have left nothing behind that the decoding of this one meets
+                cut = payload(blocks)[:4 + 8 * min(int(tail[1:]), max(0, len(blocks) - 1)) + 3]
+                try:
+                    UbxCfgGnss.construct(bytearray(cut))
+                except Exception:
+                    pass
             f = UbxCfgGnss.construct(pl)
         if prepack:                 # the frame has been encoded (sent) once before the helper is used
             f.pack()
@@ -1997,6 +2005,13 @@ def gen_gnss(rng, n, profile):
             hbl = ','.join(f'{i}:{rng.choice(flags)}' for i in hids)
             past = f'|H{rng.randrange(4)}/{rng.choice(["enable", "disable", "gps_glonass", "gps_galileo_beidou"])}/{rng.randrange(8)}/{hbl}'
         yield f'gnss|{op}|{rng.randrange(8)}|{bl}' + (past or rng.choice(['', '', '|P']))
+    # messages with many blocks (more than any receiver has systems: the count byte is the receiver's), now and then after one that
+    # announced as many and came cut short
+    for _ in range(max(40, n // 20)):
+        ids = [rng.randrange(8) for _ in range(rng.randrange(9, 40))]
+        bl = ','.join(f'{i}:{rng.choice(flags + [rng.randrange(1 << 32)])}' for i in ids)
+        op = rng.choice(['enable', 'disable', 'gps_glonass', 'gps_galileo_beidou'])
+        yield f'gnss|{op}|{rng.randrange(8)}|{bl}' + rng.choice(['', f'|T{rng.randrange(0, len(ids))}', f'|T{rng.randrange(0, len(ids))}'])
 
 
 def styled(line, method, names, *args):
